@@ -168,6 +168,20 @@ def mutants(args):
         shutil.rmtree(base, ignore_errors=True)
     with open(os.path.join(O.VERIF, "evidence", "selftest_mutants.json"), "w") as f:
         json.dump(report, f, indent=1, sort_keys=True)
+    # detection is a probability: keep the outcome per VERIF_SEED next to each other (merged over invocations)
+    seed = str(os.environ.get("VERIF_SEED", "default"))
+    hist_path = os.path.join(O.VERIF, "evidence", "selftest_mutants_by_seed.json")
+    hist = {}
+    if os.path.exists(hist_path):
+        try:
+            with open(hist_path) as f:
+                hist = json.load(f)
+        except ValueError:
+            hist = {}
+    for name, r in report.items():
+        hist.setdefault(name, {})[seed] = "%s %s" % (r.get("status"), ",".join(r.get("by", [])))
+    with open(hist_path, "w") as f:
+        json.dump(hist, f, indent=1, sort_keys=True)
     return rc
 
 
